@@ -283,6 +283,48 @@ def subspace_sphere_planes(tier, rng, rep):
     _subspace_check(rng, rep, 200 if tier == 'thorough' else 40, 3, 4)
 
 
+@bounded(P, "segment_spheres_higher_dimensions", functions=[H + "Subspace.sphere_parameters", H + "poincare_to_halfspace", H + "kleinian_to_poincare", H + "Segment._compute_aux_data"],
+         note="segments in dimension 3, 4 (both conformal models): the reported sphere passes through the endpoints and ideal endpoints given by the closed-form chart maps and meets the boundary at right angles")
+def segment_spheres_higher_dimensions(tier, rng, rep):
+    N = 200 if tier == 'thorough' else 40
+    rep.rule = "random pairs of interior points in dimension 3, 4, arbitrary homogeneous representatives; endpoints / ideal endpoints mapped by contracts/spec.py (independent of the library's conversions)"
+    rep.bound = f"{N} segments x 2 models"
+    for t in range(N):
+        n = 3 + t % 2
+        def kl():
+            v = rng.normal(size=n)
+            return v / np.linalg.norm(v) * rng.uniform(0.05, 0.9)
+        k, l = kl(), kl()
+        fa, fb = (rng.choice([-1, 1]) * 10 ** rng.uniform(-1, 1) for _ in range(2))
+        S = h.Segment(h.Point(fa * spec.k2proj(k)), h.Point(fb * spec.k2proj(l)))
+        # ideal endpoints of the Klein chord, independently: roots of |k + s (l - k)|^2 = 1
+        d = l - k
+        A_, B_, C_ = d @ d, 2 * k @ d, k @ k - 1
+        ss = [(-B_ + sg * np.sqrt(B_ * B_ - 4 * A_ * C_)) / (2 * A_) for sg in (1, -1)]
+        ideal = [k + s_ * d for s_ in ss]
+        for model in ("poincare", "halfspace"):
+            inp = {"n": n, "k": k.tolist(), "l": l.tolist(), "model": model}
+
+            def body():
+                c, r = S.sphere_parameters(model=model)
+                if not (np.all(np.isfinite(c)) and np.isfinite(r)) or r > 1e5:
+                    return
+                conv = (lambda q: spec.k2p(q)) if model == "poincare" else (lambda q: spec.p2h(spec.k2p(q)))
+                with np.errstate(all='ignore'):
+                    pts = [conv(k), conv(l)] + [conv(q / np.linalg.norm(q)) for q in ideal]
+                sc = 1 + r + max(np.max(np.abs(q)) for q in pts)
+                if not np.all(np.isfinite(np.array(pts))) or sc > 1e4:
+                    return
+                for nm, q in zip(("endpoint0", "endpoint1", "ideal0", "ideal1"), pts):
+                    if not (abs(np.linalg.norm(q - c) - r) <= 1e-5 * sc):
+                        rep.fail("sphere_through_endpoints", f"{nm}: |q - c| = {np.linalg.norm(q - c)}, r = {r}", inp); return
+                orth = (c @ c - 1 - r * r) if model == "poincare" else c[-1]
+                if not (abs(orth) <= 1e-5 * sc * sc):
+                    rep.fail("sphere_orthogonal_to_boundary", f"{orth}", inp)
+            rep.attempt("sphere_runs", inp, body)
+            rep.case(key=(t, model), nontrivial=True, sample=inp if t == 0 else None)
+
+
 @bounded(P, "horospheres_all_dimensions", functions=[H + "Horosphere.sphere_parameters", H + "HorosphereArc.circle_parameters"],
          note="horospheres in dimension 2..4, both conformal models, composite shapes; horosphere arcs in the plane")
 def horospheres_all_dimensions(tier, rng, rep):
@@ -300,8 +342,12 @@ def horospheres_all_dimensions(tier, rng, rep):
 
             def body():
                 c, r = Hs.sphere_parameters(model=model)
-                ref = h.Point(p.copy(), model="klein").coords(model)
-                ctr = h.Point(np.concatenate([np.ones(shape + (1,)), xi], axis=-1)).coords(model)
+                # reference point and ideal centre in the model, by the closed-form chart maps (not by the library's own conversion)
+                ref = spec.k2p(p) if model == "poincare" else spec.p2h(spec.k2p(p))
+                with np.errstate(all='ignore'):
+                    ctr = xi if model == "poincare" else spec.p2h(xi)
+                if not np.all(np.abs(h.Point(p.copy(), model="klein").coords(model) - ref) <= 1e-7 * (1 + np.abs(ref))):
+                    rep.fail("horosphere_through_reference_point", "the reference point's own coordinates in the model differ from the chart formula", inp); return
                 if model == "halfspace" and np.max(np.abs(ctr)) > 1e6:
                     return
                 sc = 1 + np.abs(r)
